@@ -383,6 +383,47 @@ def c11_illegal(col, rng):
                 col.counters["c11_illegal_build_rejected"] += 1
 
 
+def c11_illegal_through_operators(col, k):
+    """A setup node may not depend on a DAG argument / a non-setup node THROUGH an operator node either (`load(x + "/w")`,
+    `load(-produce(x))`, `load("p/" + x)`): an operator on results is an ordinary non-setup node."""
+    from tawazi import dag, xn
+
+    pid = "C11"
+    load = xn(setup=True)(probes.mkprobe("io_load%d" % k, setup=True))
+    prod = xn(probes.mkprobe("io_prod%d" % k))
+    use = xn(probes.mkprobe("io_use%d" % k))
+
+    def v_arg_binary(x):
+        return use(load(x + 1))
+
+    def v_arg_reflected(x):
+        return use(load(2 * x))
+
+    def v_arg_unary(x):
+        return use(load(-x))
+
+    def v_node_binary(x):
+        return use(load(prod(x) + 1))
+
+    def v_node_unary(x):
+        return use(load(abs(prod(x))))
+
+    def v_default_arg(x=3):
+        return use(load(x - 1))
+
+    for fn in (v_arg_binary, v_arg_reflected, v_arg_unary, v_node_binary, v_node_unary, v_default_arg):
+        fn.__qualname__ = fn.__name__ = "%s_%d" % (fn.__name__, k)
+        col.evaluations += 1
+        col.counters["c11_illegal_build_cases"] += 1
+        try:
+            dag(fn)
+            col.violation(pid, "illegal_setup_dependency_not_rejected(through_operator:%s)" % fn.__name__.rsplit("_", 1)[0], dict(variant=fn.__name__), {"kind": "c11_illegal"})
+        except BaseException as e:  # noqa: BLE001
+            if isinstance(e, (KeyboardInterrupt, SystemExit)):
+                raise
+            col.counters["c11_illegal_build_rejected"] += 1
+
+
 def c11_nested_setup(col, rng, k, jobref=None):
     """A DAG with a setup node called inside another DAG: what was already set up on the inner DAG is not set up again."""
     from tawazi import dag, xn
@@ -459,6 +500,8 @@ def job_hist11(j):
         if h % 5 == 4:
             c11_nested_setup(col, rng, h, jobref=j)
     c11_illegal(col, rng)
+    if not j.get("only") or any("illegal" in m for m in j["only"]):
+        c11_illegal_through_operators(col, j["seed"] % 1000)
     return col.result()
 
 
@@ -726,7 +769,7 @@ REGISTRY["replay:c15_case"] = _replay_c15
 
 
 # ------------------------------------------------------------------------------------------------ C18
-MODEL_FREE_18 = ["caching_run_raised", "cache_file_unreadable", "restart_from_cache_raised", "restart_recomputed_cached_nodes",
+MODEL_FREE_18 = ["cache_file_lacks_results_of_the_execution_that_wrote_it", "caching_run_raised", "cache_file_unreadable", "restart_from_cache_raised", "restart_recomputed_cached_nodes",
                  "restart_from_recached_file_raised", "recached_file_unreadable", "restart_without_cache_file_returned_normally", "setup_raised"]
 
 
@@ -959,12 +1002,17 @@ def _c18_case(col, rng, cidx, tmpdir, jobref=None):
             cached2 = None
         if cached2 is not None and rmode != "cache_deps_of":
             # "an execution wrote its results with cache_in": the file holds every node of this run's selection, computed or cached
-            lacking = sorted(ids[i] for i in sel2 if ids[i] not in cached2)
+            # (what the restart had loaded from the file it started from is part of its results too)
+            lacking = sorted(ids[i] for i in (set(sel2) | set(cached_sites)) if ids[i] not in cached2)
             if lacking:
                 col.violation(pid, "cache_file_lacks_results_of_the_execution_that_wrote_it", dict(
                     lacking=lacking, same_file_as_from_cache=(recache == path), restart=S.jsonable(kw2), source=S.render(sp)), rp2)
                 cached2 = None
         if cached2 is not None:
+            whole3 = False
+            if rmode != "cache_deps_of" and rng.random() < 0.5:
+                kw3 = {"from_cache": recache}  # the WHOLE DAG restarted from the file the (possibly partial) restart wrote
+                whole3 = any(k_ in kw2 for k_ in ("target_nodes", "exclude_nodes", "root_nodes"))
             B.reset_log()
             r3 = probes.run_op("second_restart", lambda: op_exec(d2, kw3, args))
             _lg3 = B.snapshot()
@@ -980,7 +1028,7 @@ def _c18_case(col, rng, cidx, tmpdir, jobref=None):
                 rec3 = sorted(x for x in ent3 if x in cached2)
                 if rec3:
                     col.violation(pid, "restart_recomputed_cached_nodes", dict(recomputed=rec3, second_restart=True, source=S.render(sp)), rp2)
-                if ref[0] == "ok" and rmode != "cache_deps_of" and not same(r2[1], r3[1]):
+                if ref[0] == "ok" and rmode != "cache_deps_of" and not whole3 and not same(r2[1], r3[1]):
                     col.violation(pid, "restart_value_differs_from_uncached_run", dict(expected=short(r2[1], 300), got=short(r3[1], 300), second_restart=True, source=S.render(sp)), rp2)
     if rng.random() < 0.3 and r2[0] == "ok":
         # the same cache file is written again by a later caching run with OTHER arguments, and restarted from again
